@@ -1,5 +1,6 @@
 """C02: sam toPairAlign reconstructs each pairwise alignment losslessly."""
 import common as cm
+import cmdlayer
 import gen
 import samgen
 
@@ -58,3 +59,16 @@ def generate(ctx):
         cs.append({"id": cid, "go": go, "coq": coq, "meta": {"kind": "random", "nontrivial": nontriv},
                    "sample": {"sam": samb.decode(), "reference": refb.decode(), **opts, "expected_by_statement": expb.decode()}})
     return cs
+
+
+def extra(ctx, obl, cases, obs):
+    """the command through the built binary (cmd/*.go): binary = library entry point, and the option handling the command does itself"""
+    n = 2 if ctx.tier == "quick" else 12
+    _cmd_state["binary_runs"] = cmdlayer.sam_layer(ctx, 'topa', n)
+
+
+_cmd_state = {}
+
+
+def coverage_extra(ctx):
+    return {"binary_runs": _cmd_state.get("binary_runs", 0)}
